@@ -118,10 +118,17 @@ func (v *vLog) Write(p []byte) (int, error) {
 		}
 	}
 
+	// keep everything when asked to, otherwise the most recent lines (for failure reports)
 	if v.keep {
 		if len(v.lines) < 4000 {
 			v.lines = append(v.lines, s)
 		}
+	} else {
+		if len(v.lines) >= 400 {
+			v.lines = append(v.lines[:0], v.lines[200:]...)
+		}
+
+		v.lines = append(v.lines, s)
 	}
 
 	return len(p), nil
@@ -249,7 +256,7 @@ func vNewServer(files map[string]string, keepLog bool) (*vSrv, error) {
 	a, b := net.Pipe()
 
 	connServer := jsonrpc2.NewConn(ctx, jsonrpc2.NewBufferedStream(a, jsonrpc2.VSCodeObjectCodec{}), jsonrpc2.HandlerWithError(s.ls.Handle))
-	s.conn = jsonrpc2.NewConn(ctx, jsonrpc2.NewBufferedStream(b, jsonrpc2.VSCodeObjectCodec{}), jsonrpc2.HandlerWithError(s.clientHandle))
+	s.conn = jsonrpc2.NewConn(ctx, jsonrpc2.NewBufferedStream(b, jsonrpc2.VSCodeObjectCodec{}), vClientHandler{s})
 
 	go func() {
 		<-ctx.Done()
@@ -301,6 +308,31 @@ func (s *vSrv) close() {
 	case <-time.After(120 * time.Second):
 		// left for the driver's cleanup of its temporary directory
 	}
+}
+
+// vClientHandler: notifications (publishDiagnostics) are processed in order on the client's read loop;
+// requests of the server (workspace/applyEdit, regal/startDebugging, ...) are answered from another
+// goroutine.  The pipe is unbuffered: a client whose read loop blocks while writing a reply, a server
+// worker that holds the server's send lock while writing a notification, and the server's read loop
+// waiting for that lock to send a response would otherwise wait for each other.  A real client with OS
+// pipes does not block on such a small write.
+type vClientHandler struct{ s *vSrv }
+
+func (h vClientHandler) Handle(ctx context.Context, conn *jsonrpc2.Conn, req *jsonrpc2.Request) {
+	res, err := h.s.clientHandle(ctx, conn, req)
+	if req.Notif {
+		return
+	}
+
+	go func() {
+		if err != nil {
+			_ = conn.ReplyWithError(ctx, req.ID, &jsonrpc2.Error{Code: jsonrpc2.CodeInternalError, Message: err.Error()})
+
+			return
+		}
+
+		_ = conn.Reply(ctx, req.ID, res)
+	}()
 }
 
 func (s *vSrv) clientHandle(_ context.Context, _ *jsonrpc2.Conn, req *jsonrpc2.Request) (any, error) {
